@@ -3,7 +3,7 @@ import GeomV.C19.Build
 /-!
 # C19 — T1 tie lemmas: the definitions REGENERATED from `route/route.go` (Gen.lean) denote the model (Model.lean)
 
-`Rep g net` relates the Go-shaped state `g : Go.Network α` (maps as association lists, the two R-trees as lists,
+`Rep geoOf g net` relates the Go-shaped state `g : Go.Network α` (maps as association lists, the two R-trees as lists,
 pointers as options) to the model's `Net α`.  Every regenerated function returns WITHOUT FAULT the value of the
 model's function on related states, and the state-changing ones preserve `Rep`:
 
@@ -21,29 +21,32 @@ namespace GeomV.C19.Ties
 open GeomV GeomV.C19 GeomV.C19.Go GeomV.C19.Gen
 
 variable {α : Type} [Field α] [LinearOrder α] [IsStrictOrderedRing α]
+-- the geometry passed to the `i`-th `AddLink` call of the history (the model's edges carry the index `link` only)
+variable {geoOf : Nat → List (Pt α)}
 
 /-- `Distance MinimizeOption = iota` (0), `Time` (1) -/
 def optNum : Opt → α
   | .distance => 0
   | .time => 1
 
-/-- a Go `edge` and a model edge carry the same numbers and end-node ids -/
-def ERel (ge : Edge α) (me : MEdge α) : Prop :=
+/-- a Go `edge` and a model edge carry the same numbers and end-node ids, and the Go edge's `LineString` is the geometry
+of the `AddLink` call the model edge stands for -/
+def ERel (geoOf : Nat → List (Pt α)) (ge : Edge α) (me : MEdge α) : Prop :=
   ge.length = me.length ∧ ge.speed = me.speed ∧ ge.time = me.time ∧
-  ge.start.map (·.id) = some me.a ∧ ge.end_.map (·.id) = some me.b
+  ge.start.map (·.id) = some me.a ∧ ge.end_.map (·.id) = some me.b ∧ ge.LineString = geoOf me.link
 
 /-- the entry `neighbors[u][v]` of the Go state against the model's `neighbor net u v` -/
-def NbRel (x : Option (Option (Edge α))) (y : Option (MEdge α)) : Prop :=
+def NbRel (geoOf : Nat → List (Pt α)) (x : Option (Option (Edge α))) (y : Option (MEdge α)) : Prop :=
   match x, y with
-  | some (some ge), some me => ERel ge me
+  | some (some ge), some me => ERel geoOf ge me
   | none, none => True
   | _, _ => False
 
-structure Rep (g : Network α) (net : Net α) : Prop where
+structure Rep (geoOf : Nat → List (Pt α)) (g : Network α) (net : Net α) : Prop where
   nodes : g.nodes = net.nodes
   nodeMap : g.nodeMap = net.nodes.map (fun n => (n.id, some n))
   nbKeys : ∀ u, (lookup u g.neighbors).isSome = hasNode net u
-  nb : ∀ u v, NbRel (lookup v (mapGetD g.neighbors u [])) (neighbor net u v)
+  nb : ∀ u v, NbRel geoOf (lookup v (mapGetD g.neighbors u [])) (neighbor net u v)
   maxID : g.maxID = net.maxID
   opt : g.minimizeOption = optNum net.opt
   speed : g.maximumSpeed = net.maxSpeed
@@ -116,11 +119,11 @@ theorem lookup_nodeMap_isSome (l : List (MNode α)) (k : Nat) :
 /-! ### the read-only methods -/
 
 theorem tie_NewNetwork (C : Ctx α) (o : Opt) :
-    ∃ g, network_NewNetwork C (optNum o) = .ok g ∧ Rep g (newNetwork o) := by
+    ∃ g, network_NewNetwork C (optNum o) = .ok g ∧ Rep geoOf g (newNetwork o) := by
   refine ⟨_, rfl, ?_⟩
   constructor <;> simp [newNetwork, hasNode, lookup, mapGetD, mapGet?, neighbor, NbRel]
 
-theorem tie_Has (C : Ctx α) (g : Network α) (net : Net α) (hR : Rep g net) (n : Nat) :
+theorem tie_Has (C : Ctx α) (g : Network α) (net : Net α) (hR : Rep geoOf g net) (n : Nat) :
     network_Has C g n = .ok (hasNode net n) := by
   unfold network_Has mapGetOk mapGet?
   simp only [bind, Except.bind, pure, Except.pure]
@@ -132,8 +135,8 @@ theorem tie_Has (C : Ctx α) (g : Network α) (net : Net α) (hR : Rep g net) (n
 
 /-! ### node creation -/
 
-theorem rep_bump {g : Network α} {net : Net α} (hR : Rep g net) :
-    Rep { g with maxID := g.maxID + 1 } { net with maxID := net.maxID + 1 } := by
+theorem rep_bump {g : Network α} {net : Net α} (hR : Rep geoOf g net) :
+    Rep geoOf { g with maxID := g.maxID + 1 } { net with maxID := net.maxID + 1 } := by
   constructor
   · exact hR.nodes
   · exact hR.nodeMap
@@ -144,7 +147,7 @@ theorem rep_bump {g : Network α} {net : Net α} (hR : Rep g net) :
   · exact hR.speed
   · exact hR.scale
 
-theorem tie_newNodeID (C : Ctx α) (g : Network α) (net : Net α) (hR : Rep g net) (hmax : net.maxID ≠ Go.maxInt) :
+theorem tie_newNodeID (C : Ctx α) (g : Network α) (net : Net α) (hR : Rep geoOf g net) (hmax : net.maxID ≠ Go.maxInt) :
     network_newNodeID C g = .ok (net.maxID + 1, { g with maxID := g.maxID + 1 }) := by
   unfold network_newNodeID
   have : g.maxID ≠ Go.maxInt := by rw [hR.maxID]; exact hmax
@@ -152,9 +155,9 @@ theorem tie_newNodeID (C : Ctx α) (g : Network α) (net : Net α) (hR : Rep g n
 
 /-- `newNode`: the same node (the nearest one when it is PointEquals, a fresh one at `p` otherwise) and related states;
 nothing but `maxID` changes -/
-theorem tie_newNode (C : Ctx α) (g : Network α) (net : Net α) (hR : Rep g net) (hmax : net.maxID ≠ Go.maxInt)
+theorem tie_newNode (C : Ctx α) (g : Network α) (net : Net α) (hR : Rep geoOf g net) (hmax : net.maxID ≠ Go.maxInt)
     (hnil : ∀ p, C.geo.nearest [] p = none) (p : Pt α) :
-    ∃ g', network_newNode C g p = .ok (some (newNode C.geo net p).1, g') ∧ Rep g' (newNode C.geo net p).2 := by
+    ∃ g', network_newNode C g p = .ok (some (newNode C.geo net p).1, g') ∧ Rep geoOf g' (newNode C.geo net p).2 := by
   have hid := tie_newNodeID C g net hR hmax
   have hgn := hR.nodes
   obtain ⟨gn, ge, gnb, gnm, gid, go, gs, gh⟩ := g
@@ -197,8 +200,8 @@ theorem newNode_maxID_le (geo : Geo α) (net : Net α) (p : Pt α) :
 
 /-- `addNode` for a node whose id is not in the table: one more entry in `nodeMap`, an empty inner map in `neighbors`,
 one more object in the node R-tree -/
-theorem tie_addNode (C : Ctx α) (g : Network α) (net : Net α) (hR : Rep g net) (m : MNode α) (hno : hasNode net m.id = false) :
-    ∃ g', network_addNode C g (some m) = .ok g' ∧ Rep g' { net with nodes := net.nodes ++ [m] } := by
+theorem tie_addNode (C : Ctx α) (g : Network α) (net : Net α) (hR : Rep geoOf g net) (m : MNode α) (hno : hasNode net m.id = false) :
+    ∃ g', network_addNode C g (some m) = .ok g' ∧ Rep geoOf g' { net with nodes := net.nodes ++ [m] } := by
   have hl : lookup m.id g.nodeMap = none := by
     have := lookup_nodeMap_isSome net.nodes m.id
     rw [← hR.nodeMap] at this
@@ -242,9 +245,9 @@ theorem tie_addNode (C : Ctx α) (g : Network α) (net : Net α) (hR : Rep g net
   · exact hR.scale
 
 /-- `if !net.Has(n.ID()) { net.addNode(n) }` is the model's `addNode` -/
-theorem tie_ensureNode (C : Ctx α) (g : Network α) (net : Net α) (hR : Rep g net) (m : MNode α) :
+theorem tie_ensureNode (C : Ctx α) (g : Network α) (net : Net α) (hR : Rep geoOf g net) (m : MNode α) :
     ∃ g', (if (!hasNode net m.id) = true then network_addNode C g (some m) else (.ok g : M (Network α))) = .ok g' ∧
-      Rep g' (addNode net m) := by
+      Rep geoOf g' (addNode net m) := by
   unfold addNode
   by_cases h : hasNode net m.id = true
   · simp only [h, Bool.not_true, Bool.false_eq_true, if_false, if_true]
@@ -314,8 +317,8 @@ theorem idx_nil {β : Type} (i : Int) : Go.idx ([] : List β) i = .error .index 
 theorem ite_ok {ε β : Type} (c : Prop) [Decidable c] (x y : β) :
     (if c then (Except.ok x : Except ε β) else Except.ok y) = Except.ok (if c then x else y) := by split <;> rfl
 
-theorem rep_speed {g : Network α} {net : Net α} (hR : Rep g net) (speed : α) :
-    Rep (if decide (speed > g.maximumSpeed) = true then { g with maximumSpeed := speed } else g)
+theorem rep_speed {g : Network α} {net : Net α} (hR : Rep geoOf g net) (speed : α) :
+    Rep geoOf (if decide (speed > g.maximumSpeed) = true then { g with maximumSpeed := speed } else g)
       (if net.maxSpeed < speed then { net with maxSpeed := speed } else net) := by
   rw [hR.speed]
   by_cases h : net.maxSpeed < speed
@@ -327,13 +330,13 @@ theorem rep_speed {g : Network α} {net : Net α} (hR : Rep g net) (speed : α) 
     exact hR
 
 /-- the last lines of `AddLink`: both `neighbors` entries, the edge R-tree, the heuristic scale -/
-theorem rep_final {g5 : Network α} {net5 : Net α} (hR5 : Rep g5 net5) (ge : Edge α) (me : MEdge α) (hrel : ERel ge me)
+theorem rep_final {g5 : Network α} {net5 : Net α} (hR5 : Rep geoOf g5 net5) (ge : Edge α) (me : MEdge α) (hrel : ERel geoOf ge me)
     (m2 : Map Nat (Map Nat (Option (Edge α))))
     (k : ∀ u, (lookup u m2).isSome = (lookup u g5.neighbors).isSome)
     (s : ∀ u w, lookup w (mapGetD m2 u []) = if u = me.b ∧ w = me.a then some (some ge) else
       if u = me.a ∧ w = me.b then some (some ge) else lookup w (mapGetD g5.neighbors u []))
     (hs : α) (edges' : List (Edge α)) :
-    Rep { g5 with edges := edges', neighbors := m2, heuristicScale := hs }
+    Rep geoOf { g5 with edges := edges', neighbors := m2, heuristicScale := hs }
       { net5 with edges := net5.edges ++ [me], hscale := hs } := by
   constructor
   · exact hR5.nodes
@@ -342,7 +345,7 @@ theorem rep_final {g5 : Network α} {net5 : Net α} (hR5 : Rep g5 net5) (ge : Ed
     show (lookup u m2).isSome = _
     rw [k]; exact hR5.nbKeys u
   · intro u w
-    show NbRel (lookup w (mapGetD m2 u [])) _
+    show NbRel geoOf (lookup w (mapGetD m2 u [])) _
     rw [s, neighbor_append net5 _ me rfl]
     have old := hR5.nb u w
     by_cases h1 : u = me.b ∧ w = me.a
@@ -367,10 +370,10 @@ theorem rep_final {g5 : Network α} {net5 : Net α} (hR5 : Rep g5 net5) (ge : Ed
 
 /-- **`AddLink`** as regenerated returns, on related states, exactly what the model's `addLink` returns: the same
 outcome (new state related again; the empty-link index fault; the self-edge panic) -/
-theorem tie_AddLink (C : Ctx α) (g : Network α) (net : Net α) (hR : Rep g net) (hmax : net.maxID + 2 ≤ Go.maxInt)
-    (hnil : ∀ p, C.geo.nearest [] p = none) (i : Nat) (l : Link α) :
+theorem tie_AddLink (C : Ctx α) (g : Network α) (net : Net α) (hR : Rep geoOf g net) (hmax : net.maxID + 2 ≤ Go.maxInt)
+    (hnil : ∀ p, C.geo.nearest [] p = none) (i : Nat) (l : Link α) (hgeo : geoOf i = l.pts) :
     match addLink C.geo net i l with
-    | .ok net' => ∃ g', network_AddLink C g l.pts l.speed = .ok g' ∧ Rep g' net'
+    | .ok net' => ∃ g', network_AddLink C g l.pts l.speed = .ok g' ∧ Rep geoOf g' net'
     | .error .emptyLink => network_AddLink C g l.pts l.speed = .error .index
     | .error .selfEdge => network_AddLink C g l.pts l.speed = .error (.panic "concrete: adding self edge")
     | .error _ => True := by
@@ -418,8 +421,8 @@ theorem tie_AddLink (C : Ctx α) (g : Network α) (net : Net α) (hR : Rep g net
       rw [if_neg (by simp)]
       simp only [em1, em2]
       refine ⟨_, rfl, ?_⟩
-      have hrel : ERel ge ⟨i, a.id, b.id, C.geo.length (p0 :: r), speed, C.geo.length (p0 :: r) / speed⟩ := by
-        subst hge; simp [ERel]
+      have hrel : ERel geoOf ge ⟨i, a.id, b.id, C.geo.length (p0 :: r), speed, C.geo.length (p0 :: r) / speed⟩ := by
+        subst hge; simp [ERel, hgeo]
       have hfin := fun hs => rep_final hR5 ge ⟨i, a.id, b.id, C.geo.length (p0 :: r), speed, C.geo.length (p0 :: r) / speed⟩ hrel m2
         (fun u => by rw [k2, k1])
         (fun u w => by rw [s2, s1]) hs (treeInsert g5.edges ge)
@@ -445,7 +448,7 @@ theorem tie_AddLink (C : Ctx α) (g : Network α) (net : Net α) (hR : Rep g net
 theorem optNum_time_ne : (optNum Opt.distance : α) ≠ 1 := by simp [optNum]
 
 /-- `Weight(xid, yid)`: `(w, true)` exactly when the model's `weightOf` is `some w`, `(+Inf, false)` otherwise; never a fault -/
-theorem tie_Weight (C : Ctx α) (g : Network α) (net : Net α) (hR : Rep g net) (x y : Nat) :
+theorem tie_Weight (C : Ctx α) (g : Network α) (net : Net α) (hR : Rep geoOf g net) (x y : Nat) :
     network_Weight C g x y = .ok (match weightOf net x y with | some w => (w, true) | none => (C.inf, false)) := by
   unfold network_Weight weightOf
   by_cases hxy : x = y
@@ -469,14 +472,14 @@ theorem tie_Weight (C : Ctx α) (g : Network α) (net : Net α) (hR : Rep g net)
         | some ge =>
           rw [hm, hl] at hnb
           simp only at hnb
-          obtain ⟨hlen, _, htime, _, _⟩ := hnb
+          obtain ⟨hlen, _, htime, _, _, _⟩ := hnb
           simp only [if_true, Go.deref, pure, Except.pure, hR.opt]
           cases ho : net.opt with
           | time => simp [optNum, htime]
           | distance => simp [optNum, hlen]
 
 /-- `costHeuristic(x, y)` on two stored nodes: the scaled straight-line distance (divided by the maximum speed under Time) -/
-theorem tie_costHeuristic (C : Ctx α) (g : Network α) (net : Net α) (hR : Rep g net) (n1 n2 : MNode α) :
+theorem tie_costHeuristic (C : Ctx α) (g : Network α) (net : Net α) (hR : Rep geoOf g net) (n1 n2 : MNode α) :
     network_costHeuristic C g (some n1) (some n2) = .ok (match net.opt with
       | .time => C.geo.euclid n1.p n2.p * net.hscale / net.maxSpeed
       | .distance => C.geo.euclid n1.p n2.p * net.hscale) := by
@@ -517,19 +520,21 @@ theorem addLink_maxID_le (geo : Geo α) (net net' : Net α) (i : Nat) (l : Link 
 /-- **every history**: the network built by the regenerated `NewNetwork` + `AddLink` calls is related to the model's
 `build` (same outcome for every link sequence the model accepts), as long as node ids stay below `maxInt = 2^63-1` -/
 theorem tie_buildFrom (C : Ctx α) (hnil : ∀ p, C.geo.nearest [] p = none) :
-    ∀ (ls : List (Link α)) (g : Network α) (net : Net α) (i : Nat), Rep g net → net.maxID + 2 * ls.length ≤ Go.maxInt →
-    ∀ net', buildFrom C.geo net i ls = .ok net' → ∃ g', genBuild C g ls = .ok g' ∧ Rep g' net' := by
+    ∀ (ls : List (Link α)) (g : Network α) (net : Net α) (i : Nat), Rep geoOf g net → net.maxID + 2 * ls.length ≤ Go.maxInt →
+    (∀ j (h : j < ls.length), geoOf (i + j) = ls[j].pts) →
+    ∀ net', buildFrom C.geo net i ls = .ok net' → ∃ g', genBuild C g ls = .ok g' ∧ Rep geoOf g' net' := by
   intro ls
   induction ls with
   | nil =>
-    intro g net i hR _ net' h
+    intro g net i hR _ _ net' h
     simp only [buildFrom, Except.ok.injEq] at h
     subst h
     exact ⟨g, rfl, hR⟩
   | cons l ls ih =>
-    intro g net i hR hmax net' h
+    intro g net i hR hmax hgeo net' h
     simp only [buildFrom] at h
     have t := tie_AddLink C g net hR (by simp only [List.length_cons] at hmax; omega) hnil i l
+      (by have := hgeo 0 (by simp); simpa using this)
     cases ha : addLink C.geo net i l with
     | error e => rw [ha] at h; cases h
     | ok net1 =>
@@ -537,16 +542,22 @@ theorem tie_buildFrom (C : Ctx α) (hnil : ∀ p, C.geo.nearest [] p = none) :
       simp only at h t
       obtain ⟨g1, e1, hR1⟩ := t
       have hb := addLink_maxID_le C.geo net net1 i l ha
-      obtain ⟨g', e', hR'⟩ := ih g1 net1 (i + 1) hR1 (by simp only [List.length_cons] at hmax; omega) net' h
+      obtain ⟨g', e', hR'⟩ := ih g1 net1 (i + 1) hR1 (by simp only [List.length_cons] at hmax; omega)
+        (fun j hj => by
+          have := hgeo (j + 1) (by simp only [List.length_cons]; omega)
+          simp only [List.getElem_cons_succ] at this
+          rw [← this]; congr 1; omega) net' h
       refine ⟨g', ?_, hR'⟩
       simp only [genBuild, bind, Except.bind, e1]
       exact e'
 
 theorem tie_build (C : Ctx α) (hnil : ∀ p, C.geo.nearest [] p = none) (o : Opt) (ls : List (Link α))
-    (hmax : 2 * ls.length ≤ Go.maxInt) (net' : Net α) (h : build C.geo o ls = .ok net') :
-    ∃ g0 g', network_NewNetwork C (optNum o) = .ok g0 ∧ genBuild C g0 ls = .ok g' ∧ Rep g' net' := by
-  obtain ⟨g0, e0, hR0⟩ := tie_NewNetwork C o
-  obtain ⟨g', e', hR'⟩ := tie_buildFrom C hnil ls g0 (newNetwork o) 0 hR0 (by simp [newNetwork]; exact hmax) net' h
+    (hmax : 2 * ls.length ≤ Go.maxInt) (hgeo : ∀ j (h : j < ls.length), geoOf j = ls[j].pts)
+    (net' : Net α) (h : build C.geo o ls = .ok net') :
+    ∃ g0 g', network_NewNetwork C (optNum o) = .ok g0 ∧ genBuild C g0 ls = .ok g' ∧ Rep geoOf g' net' := by
+  obtain ⟨g0, e0, hR0⟩ := tie_NewNetwork (geoOf := geoOf) C o
+  obtain ⟨g', e', hR'⟩ := tie_buildFrom C hnil ls g0 (newNetwork o) 0 hR0 (by simp [newNetwork]; exact hmax)
+    (fun j hj => by rw [Nat.zero_add]; exact hgeo j hj) net' h
   exact ⟨g0, g', e0, e', hR'⟩
 
 end GeomV.C19.Ties
